@@ -234,11 +234,17 @@ def removal_relations(ctx):
             ctx.touch(h)
             cs = [c for c in walk_fn(fn) if isinstance(c, ast.Call) and call_name(c) == h.name]
             if cs:
-                sub = {q: a.id for q, a in zip(h.params, cs[0].args) if isinstance(a, ast.Name)}
-                sub.update({k.arg: k.value.id for k in cs[0].keywords if isinstance(k.value, ast.Name)})
-                inv = {q: v for q, v in sub.items()}
-                kname = next((q for q, v in inv.items() if v == kname), kname)
-                cname = next((q for q, v in inv.items() if v == cname), cname)
+                # the helper's statements with the call's arguments substituted for its parameters: `if is_preceding`
+                # reads as `if i < i_taken_choice`, the parameter names do not matter
+                import copy
+                sub = dict(zip(h.params, cs[0].args))
+                sub.update({k.arg: k.value for k in cs[0].keywords if k.arg})
+
+                class S(ast.NodeTransformer):
+                    def visit_Name(self, node):
+                        return copy.deepcopy(sub[node.id]) if node.id in sub and isinstance(node.ctx, ast.Load) \
+                            else node
+                region = [S().visit(copy.deepcopy(x)) for x in region]
             break
     table = None
     if region is None:
